@@ -1,6 +1,7 @@
 import Poulpy.Lemmas.CkksValue
 import Poulpy.Lemmas.CkksProg
 import Poulpy.Lemmas.CkksContract
+import Poulpy.Lemmas.CkksPt
 /-!
 # C16 — the CKKS evaluator tracks precision metadata through any straight-line program
 
@@ -684,22 +685,22 @@ to the plaintext `M j` within `E j`; `specM` is the call on plaintext coefficien
 call's own roundings — `2·σ·u` for an out-of-place addition, `σ·u` for the other rounding calls, `0` for the
 exact ones — to the operands' budgets carried through the call's linear map) -/
 theorem step_sem {env : Env} (he : EnvOK env) {N r : Nat} {pool : DPool} (hp : AllOK env N r pool) (op : LOp)
-    {mp : Ckks.Pool} (hm : stepR env (DPool.cts pool) op.toOp = .ok mp) :
+    (hpt : op.PtsOK env N) {mp : Ckks.Pool} (hm : stepR env (DPool.cts pool) op.toOp = .ok mp) :
     ∃ pool', dstep env N pool op = .ok pool' ∧ DPool.cts pool' = mp ∧ AllOK env N r pool' ∧
       ∀ s M E, Tracks s N pool M E →
         Tracks s N pool' (specM M op) (specE (sn r s) (ulpAt env mp op.dst) E op) :=
-  dstep_sem he hp op hm
+  dstep_sem he hp op hpt hm
 
 /-- **programs**: by induction over the call list.  The decoded result is the program on the plaintext
 polynomials up to `specRun … .2`: the sum over the calls of their own roundings (in units of the last limb of
 *their* result, times `1 + Σ‖sᵢ‖₁`) multiplied by the gain of the calls that follow (`2^bits` for
 `mul_pow2`, `2^-bits` for `div_pow2`, `1` otherwise) -/
-theorem program_sem {env : Env} (he : EnvOK env) {N r : Nat} (ops : List LOp) {pool : DPool} (hp : AllOK env N r pool)
-    {mp : Ckks.Pool} (hm : run env (DPool.cts pool) (ops.map LOp.toOp) = .ok mp) :
+theorem program_sem {env : Env} (he : EnvOK env) {N r : Nat} (ops : List LOp) (hops : ∀ op ∈ ops, op.PtsOK env N)
+    {pool : DPool} (hp : AllOK env N r pool) {mp : Ckks.Pool} (hm : run env (DPool.cts pool) (ops.map LOp.toOp) = .ok mp) :
     ∃ pool', drun env N pool ops = .ok pool' ∧ DPool.cts pool' = mp ∧ AllOK env N r pool' ∧
       ∀ s M E, Tracks s N pool M E →
         Tracks s N pool' (specRun env (sn r s) (DPool.cts pool) M E ops).1 (specRun env (sn r s) (DPool.cts pool) M E ops).2 :=
-  drun_sem he ops hp hm
+  drun_sem he ops hops hp hm
 
 def pool4_ok : AllOK env4 2 1 [xA, xB, xD] := by
   intro c hc
@@ -720,7 +721,7 @@ example : ∃ pool', drun env4 2 [xA, xB, xD] [.add false 2 0 1, .negAssign 2, .
       Near (decC s c t) (1 * (2 ^ 1 * (-1 * (1 * M 0 t + 1 * M 1 t))) + -1 * (1 * M 1 t)) (wrap c)
         (sn 1 s * (2 * (2 * (2 ^ 4 / 2 ^ 8)) + 2 ^ 3 / 2 ^ 8) + 2 * E 0 + 3 * E 1) := by
   obtain ⟨pool', h, hc, _, hv⟩ := program_sem env4_ok [.add false 2 0 1, .negAssign 2, .mulPow2Assign 2 1,
-    .rescaleAssign 1 1, .addAssign true 2 1] pool4_ok (mp := ([⟨⟨4, 8⟩, 3⟩, ⟨⟨4, 3⟩, 2⟩, ⟨⟨4, 3⟩, 2⟩] : Ckks.Pool)) (by decide)
+    .rescaleAssign 1 1, .addAssign true 2 1] (by intro op hop; simp at hop; rcases hop with rfl | rfl | rfl | rfl | rfl <;> trivial) pool4_ok (mp := ([⟨⟨4, 8⟩, 3⟩, ⟨⟨4, 3⟩, 2⟩, ⟨⟨4, 3⟩, 2⟩] : Ckks.Pool)) (by decide)
   refine ⟨pool', h, hc, fun s M E ht c hc t htN => ?_⟩
   have := hv s M E ht 2 c hc t htN
   have h1 : stepR env4 (DPool.cts [xA, xB, xD]) (LOp.add false 2 0 1).toOp = .ok [⟨⟨4, 8⟩, 3⟩, ⟨⟨4, 4⟩, 2⟩, ⟨⟨4, 4⟩, 2⟩] := by decide
@@ -841,6 +842,40 @@ example : ∀ t, t < 2 → Near (decC [] xBp t) (decC [] xB t + 1 * ((([16, 0] :
     ⟨⟨rfl, rfl⟩, fun t ht => by
       have : t = 0 ∨ t = 1 := by omega
       rcases this with rfl | rfl <;> exact ⟨0, 0, by decide, by simp⟩⟩
+
+/-- **ZNX plaintext addend, in place — no contract** (`PtAddContract` discharged on the data path: the fused right shift
+of the body column, `C08.rsh_add_value` / `rsh_sub_value` for its value, `Bound.rshCoef_fused_bound` for its limbs,
+`C02L.torus_phase3` for the phase): the value moves by the plaintext message `Y_t / 2^log_delta`, `Y_t` the integer the
+plaintext limbs hold at coefficient `t` -/
+theorem add_pt_assign_data_sem {env : Env} (he : EnvOK env) {N r : Nat} {c : DCt} (hc : DOK env N r c) (sub : Bool)
+    {pt : Pt} {pg : Col} (hp : PtOK env N pt pg) {m : Ct}
+    (hm : withPt env pt c.ct (addPtZnxAssign env c.ct pt) = .ok m) :
+    ∃ c', dAddPtAssign env N sub c pt pg = .ok c' ∧ c'.ct = m ∧ DOK env N r c' ∧
+      ∀ s t, t < N → Near (decC s c' t)
+        (decC s c t + sg sub * ((valCoeff env.base2k pg t : ℚ) / 2 ^ pt.md.logDelta)) (wrap c') (sn r s * ulp c') :=
+  dAddPtAssign_sem he hc sub hp hm
+
+/-- the plaintext `1` at `log_delta = 4` on two limbs -/
+def pgOne : Col := [[1, 0], [0, 0]]
+def pgOne_ok : PtOK env4 2 ⟨⟨4, 4⟩, 4⟩ pgOne := ⟨by decide, by decide⟩
+
+example : ∃ c', dAddPtAssign env4 2 false xB ⟨⟨4, 4⟩, 4⟩ pgOne = .ok c' ∧
+    ∀ s t, t < 2 → Near (decC s c' t) (decC s xB t + 1 * ((valCoeff 4 pgOne t : ℚ) / 2 ^ 4)) (wrap c') (sn 1 s * ulp c') :=
+  let ⟨c', h, _, _, hv⟩ := add_pt_assign_data_sem env4_ok xB_ok false pgOne_ok (m := xB.ct) (by decide)
+  ⟨c', h, hv⟩
+
+/-- **ZNX plaintext addend, out of place — no contract** -/
+theorem add_pt_into_data_sem {env : Env} (he : EnvOK env) {N r : Nat} {dst a : DCt} (hd : DOK env N r dst) (ha : DOK env N r a)
+    (sub : Bool) {pt : Pt} {pg : Col} (hp : PtOK env N pt pg) {m : Ct}
+    (hm : withPt env pt dst.ct (addPtZnxInto env dst.ct a.ct pt) = .ok m) :
+    ∃ c', dAddPtInto env N sub dst a pt pg = .ok c' ∧ c'.ct = m ∧ DOK env N r c' ∧
+      ∀ s t, t < N → Near (decC s c' t)
+        (decC s a t + sg sub * ((valCoeff env.base2k pg t : ℚ) / 2 ^ pt.md.logDelta)) (wrap c') (2 * sn r s * ulp c') :=
+  dAddPtInto_sem he hd ha sub hp hm
+
+example : ∃ c', dAddPtInto env4 2 true xD xA ⟨⟨4, 4⟩, 4⟩ pgOne = .ok c' ∧ c'.ct = ⟨⟨4, 4⟩, 2⟩ :=
+  let ⟨c', h, hc, _⟩ := add_pt_into_data_sem env4_ok xD_ok xA_ok true pgOne_ok (m := ⟨⟨4, 4⟩, 2⟩) (by decide)
+  ⟨c', h, hc⟩
 
 end Exact
 
